@@ -7,6 +7,7 @@ package main
 // routing table that says which instrumented call each request must reach.
 
 import (
+	"context"
 	"fmt"
 	"io"
 	"os"
@@ -44,6 +45,57 @@ type gOp struct {
 	// Abs (path requests on a server with a working / start directory): the path is sent in its absolute form
 	// nonetheless (without it every path of the pipeline is sent relative to that directory).
 	Abs bool `json:"abs,omitempty"`
+	// Nx (handle requests, H empty): the request names a handle whose HANDLE reply the client has NOT received — the
+	// decimal string of the Nx-th handle number the server hands out after the set-up (both servers number their
+	// handles 1, 2, 3 …). Such a request may reach the server before, while or after the OPEN / OPENDIR of the pipeline
+	// that is given this number runs (or no request is given it at all). Nothing about its outcome is predicted; it
+	// is owed exactly one reply of a legal type in its turn.
+	Nx int `json:"nx,omitempty"`
+	// At: the attribute values sent with the flags AF (SETSTAT, FSETSTAT, and — when not nil — OPEN and MKDIR, which
+	// otherwise carry an empty attribute block). nil: permissions 0644, everything else 0.
+	At *gAttr `json:"at,omitempty"`
+}
+
+// gAttr are the values of an attribute block (which of them go over the wire is decided by the flags gOp.AF).
+type gAttr struct {
+	Size  uint64      `json:"size,omitempty"`
+	UID   uint32      `json:"uid,omitempty"`
+	GID   uint32      `json:"gid,omitempty"`
+	Perm  uint32      `json:"perm,omitempty"`
+	Atime uint32      `json:"atime,omitempty"`
+	Mtime uint32      `json:"mtime,omitempty"`
+	Ext   [][2]string `json:"ext,omitempty"`
+}
+
+// block is the attribute block of the request: flags word and the fields the flags announce.
+func (o gOp) block() []byte {
+	st := wire.St{Flags: o.AF, Perm: 0o644}
+	if o.At != nil {
+		st = wire.St{Flags: o.AF, Size: o.At.Size, UID: o.At.UID, GID: o.At.GID, Perm: o.At.Perm, Atime: o.At.Atime, Mtime: o.At.Mtime, Ext: o.At.Ext}
+	}
+	return st.Block()
+}
+
+// openBlock is the attribute block of an OPEN / MKDIR request: empty unless the request was given attributes.
+func (o gOp) openBlock() []byte {
+	if o.At == nil {
+		return wire.B{}.U32(0)
+	}
+	return o.block()
+}
+
+// gPredObj: objects named q… / dq… (and missingq…) are opened only INSIDE a pipeline, by programs that also name
+// handles before their HANDLE reply (gOp.Nx). Which requests reach such an object depends on the schedule, so the
+// instrumented calls made on it (everything but the handler call of the OPEN / OPENDIR itself) are never held and
+// never counted.
+func gPredObj(obj string) bool {
+	b := path.Base(obj)
+	return strings.HasPrefix(b, "q") || strings.HasPrefix(b, "dq")
+}
+
+// gFreeCall: calls that are logged but neither held nor accounted for (see gPredObj).
+func gFreeCall(op, obj string) bool {
+	return gPredObj(obj) && !strings.HasPrefix(op, "Open") && op != "FilelistList"
 }
 
 // pth is the path a path request names: abs(P), lengthened to Pad bytes where Pad asks for more.
@@ -143,6 +195,16 @@ func (p gProg) text() string {
 
 func (o gOp) text() string {
 	s := o.K
+	if o.Nx > 0 {
+		s += fmt.Sprintf("(next-handle+%d", o.Nx)
+		if o.K == "read" || o.K == "write" {
+			s += fmt.Sprintf("@%d+%d", o.Off, o.Len)
+		}
+		s += ")"
+	}
+	if o.AF != 0 && o.At != nil {
+		s += fmt.Sprintf("[af=%#x]", o.AF)
+	}
 	if o.H != "" {
 		s += "(" + o.H
 		if o.K == "read" || o.K == "write" {
@@ -168,6 +230,12 @@ func (p gProg) shape() string {
 		b.WriteString(" " + o.K)
 		if o.H != "" {
 			b.WriteString(":" + o.H)
+		}
+		if o.Nx > 0 {
+			b.WriteString(fmt.Sprintf(":next+%d", o.Nx))
+		}
+		if o.At != nil {
+			b.WriteString(fmt.Sprintf(":af%x", o.AF))
 		}
 		if strings.HasPrefix(o.P, "missing") {
 			b.WriteString(":missing")
@@ -283,7 +351,6 @@ var gFutureAtime = time.Unix((time.Now().Unix()/86400+3)*86400, 0)
 
 // frame is the request as sent. abs gives the form in which its path names go over the wire (gCase.sent).
 func (o gOp) frame(abs func(string) string, h string) []byte {
-	attrs := wire.St{Flags: o.AF, Perm: 0o644, Size: 0}
 	switch o.K {
 	case "read":
 		return wire.Req(wire.Read, o.ID, wire.B{}.Str(h).U64(uint64(o.Off)).U32(o.Len))
@@ -296,7 +363,7 @@ func (o gOp) frame(abs func(string) string, h string) []byte {
 	case "readdir":
 		return wire.Req(wire.Readdir, o.ID, wire.B{}.Str(h))
 	case "fsetstat":
-		return wire.Req(wire.Fsetstat, o.ID, wire.B{}.Str(h).Raw(attrs.Block()))
+		return wire.Req(wire.Fsetstat, o.ID, wire.B{}.Str(h).Raw(o.block()))
 	case "fsync":
 		return wire.Req(wire.Extended, o.ID, wire.B{}.Str("fsync@openssh.com").Str(h))
 	case "stat":
@@ -306,11 +373,11 @@ func (o gOp) frame(abs func(string) string, h string) []byte {
 	case "opendir":
 		return wire.Req(wire.Opendir, o.ID, wire.B{}.Str(abs(o.P)))
 	case "open":
-		return wire.Req(wire.Open, o.ID, wire.B{}.Str(abs(o.P)).U32(wire.FRead).U32(0))
+		return wire.Req(wire.Open, o.ID, wire.B{}.Str(abs(o.P)).U32(wire.FRead).Raw(o.openBlock()))
 	case "openrw":
-		return wire.Req(wire.Open, o.ID, wire.B{}.Str(abs(o.P)).U32(wire.FRead|wire.FWrite).U32(0))
+		return wire.Req(wire.Open, o.ID, wire.B{}.Str(abs(o.P)).U32(wire.FRead|wire.FWrite).Raw(o.openBlock()))
 	case "openw":
-		return wire.Req(wire.Open, o.ID, wire.B{}.Str(abs(o.P)).U32(wire.FWrite|wire.FCreat|wire.FTrunc).U32(0))
+		return wire.Req(wire.Open, o.ID, wire.B{}.Str(abs(o.P)).U32(wire.FWrite|wire.FCreat|wire.FTrunc).Raw(o.openBlock()))
 	case "remove":
 		return wire.Req(wire.Remove, o.ID, wire.B{}.Str(abs(o.P)))
 	case "rmdir":
@@ -320,9 +387,9 @@ func (o gOp) frame(abs func(string) string, h string) []byte {
 	case "readlink":
 		return wire.Req(wire.Readlink, o.ID, wire.B{}.Str(o.pth(abs)))
 	case "setstat":
-		return wire.Req(wire.Setstat, o.ID, wire.B{}.Str(abs(o.P)).Raw(attrs.Block()))
+		return wire.Req(wire.Setstat, o.ID, wire.B{}.Str(abs(o.P)).Raw(o.block()))
 	case "mkdir":
-		return wire.Req(wire.Mkdir, o.ID, wire.B{}.Str(abs(o.P)).U32(0))
+		return wire.Req(wire.Mkdir, o.ID, wire.B{}.Str(abs(o.P)).Raw(o.openBlock()))
 	case "rename":
 		return wire.Req(wire.Rename, o.ID, wire.B{}.Str(abs(o.P)).Str(abs(o.P2)))
 	case "symlink":
@@ -473,6 +540,8 @@ func gRoutes(p gProg, abs func(string) string) []gRoute {
 			default:
 				panic("program uses handle " + o.H + " while its CLOSE may still be running: " + p.text())
 			}
+		} else if o.Nx > 0 {
+			r.HKind = "predicted" // no instrumented call is expected or excluded
 		}
 		obj := ""
 		if hd != nil {
@@ -526,8 +595,12 @@ func gRoutes(p gProg, abs func(string) string) []gRoute {
 			if live {
 				if rs {
 					r.Sim.Gate = num("cmd:Setstat:" + obj)
+				} else if o.AF&wire.ASize != 0 { // the os-backed server applies size, permissions, owner in this order; programs set at most one of them
+					r.Sim.Gate = num("trunc:" + obj)
 				} else if o.AF&wire.APerm != 0 {
 					r.Sim.Gate = num("chmod:" + obj)
+				} else if o.AF&wire.AUIDGID != 0 {
+					r.Sim.Gate = num("chown:" + obj)
 				}
 			}
 		case o.K == "close":
@@ -650,14 +723,29 @@ type gRS struct {
 type gRSFile struct {
 	rs     *gRS
 	path   string
+	ctx    context.Context // the context of the request that opened the object
 	mu     sync.Mutex
 	writes map[int64][]byte
+}
+
+// gCtxDone: the context of the OPEN / OPENDIR request has been cancelled.
+func gCtxDone(ctx context.Context) bool { return ctx != nil && ctx.Err() != nil }
+
+// gSeen is what a handler found in the request it was given: flags and attribute block, raw and decoded (the effect
+// of a SETSTAT / FSETSTAT / OPEN on a request server is what its handler is shown).
+func gSeen(r *sftp.Request) []byte {
+	at := "undecodable"
+	if fs := r.Attributes(); fs != nil {
+		at = fmt.Sprintf("%+v", *fs)
+	}
+	return []byte(fmt.Sprintf("method=%s path=%s target=%s flags=%#x attr-flags=%+v attributes=%s raw=%x", r.Method, gKeyPath(r.Filepath), r.Target, r.Flags, r.AttrFlags(), at, r.Attrs))
 }
 
 func (f *gRSFile) base() string { return path.Base(f.path) }
 
 func (f *gRSFile) ReadAt(b []byte, off int64) (int, error) {
 	c := f.rs.hub.enter("ReadAt", f.path, fmt.Sprintf("rw:%s:%d", f.path, off), false, off, b, true)
+	f.rs.hub.ctxState(c, f.ctx)
 	size := gSize(f.base())
 	n := 0
 	var err error
@@ -679,6 +767,7 @@ func (f *gRSFile) ReadAt(b []byte, off int64) (int, error) {
 
 func (f *gRSFile) WriteAt(b []byte, off int64) (int, error) {
 	c := f.rs.hub.enter("WriteAt", f.path, fmt.Sprintf("rw:%s:%d", f.path, off), false, off, b, true)
+	f.rs.hub.ctxState(c, f.ctx)
 	cp := append([]byte(nil), b...)
 	f.mu.Lock()
 	f.writes[off] = cp
@@ -689,6 +778,7 @@ func (f *gRSFile) WriteAt(b []byte, off int64) (int, error) {
 
 func (f *gRSFile) Close() error {
 	c := f.rs.hub.enter("Close", f.path, "close:"+f.path, false, 0, nil, false)
+	f.rs.hub.ctxState(c, f.ctx)
 	f.rs.hub.leave(c, 0, nil, nil)
 	return nil
 }
@@ -696,10 +786,12 @@ func (f *gRSFile) Close() error {
 type gRSDir struct {
 	rs   *gRS
 	path string
+	ctx  context.Context
 }
 
 func (d *gRSDir) ListAt(ls []os.FileInfo, off int64) (int, error) {
 	c := d.rs.hub.enter("ListAt", d.path, "ls:"+d.path, true, off, nil, true)
+	d.rs.hub.ctxState(c, d.ctx)
 	ents := gDirEntries(path.Base(d.path))
 	n := 0
 	var names []string
@@ -718,6 +810,7 @@ func (d *gRSDir) ListAt(ls []os.FileInfo, off int64) (int, error) {
 
 func (d *gRSDir) Close() error {
 	c := d.rs.hub.enter("Close", d.path, "close:"+d.path, false, 0, nil, false)
+	d.rs.hub.ctxState(c, d.ctx)
 	d.rs.hub.leave(c, 0, nil, nil)
 	return nil
 }
@@ -748,12 +841,12 @@ func (g *gRS) open(r *sftp.Request) (*gRSFile, error) {
 	err := gPathErr(r.Filepath)
 	var f *gRSFile
 	if err == nil {
-		f = &gRSFile{rs: g, path: r.Filepath, writes: map[int64][]byte{}}
+		f = &gRSFile{rs: g, path: r.Filepath, ctx: r.Context(), writes: map[int64][]byte{}}
 		g.mu.Lock()
 		g.obj[r.Filepath] = f
 		g.mu.Unlock()
 	}
-	g.hub.leave(c, 0, err, nil)
+	g.hub.leave(c, 0, err, gSeen(r))
 	return f, err
 }
 
@@ -784,7 +877,7 @@ func (g *gRS) OpenFile(r *sftp.Request) (sftp.WriterAtReaderAt, error) {
 func (g *gRS) Filecmd(r *sftp.Request) error {
 	c := g.hub.enter("Filecmd", r.Filepath, "cmd:"+r.Method+":"+r.Filepath, true, 0, nil, true)
 	err := gPathErr(r.Filepath)
-	g.hub.leave(c, 0, err, nil)
+	g.hub.leave(c, 0, err, gSeen(r))
 	return err
 }
 
@@ -821,7 +914,7 @@ func (g *gRS) Filelist(r *sftp.Request) (sftp.ListerAt, error) {
 		return nil, err
 	}
 	if r.Method == "List" {
-		return &gRSDir{rs: g, path: r.Filepath}, nil
+		return &gRSDir{rs: g, path: r.Filepath, ctx: r.Context()}, nil
 	}
 	return gOneInfo{gStatInfo(r.Filepath)}, nil
 }
@@ -1134,6 +1227,9 @@ func gBuildTree(root string, p gProg) error {
 		if done[name] || gIsMissing(name) || name == "" || name == "lnk" {
 			return nil
 		}
+		if strings.HasPrefix(name, "ow") || strings.HasPrefix(name, "mk") { // made by the requests themselves (OPEN with creation, MKDIR)
+			return nil
+		}
 		done[name] = true
 		if strings.HasPrefix(name, "lnkmax") {
 			return os.Symlink(gLongTarget, filepath.Join(root, name))
@@ -1163,7 +1259,10 @@ func gBuildTree(root string, p gProg) error {
 		case "rmdir":
 			err = os.Mkdir(filepath.Join(root, o.P), 0o755)
 		case "remove", "rename", "posixrename", "hardlink", "setstat":
-			err = mkfile(o.P, []byte("victim "+o.P))
+			if !done[o.P] {
+				done[o.P] = true
+				err = mkfile(o.P, []byte("victim "+o.P))
+			}
 		case "mkdir", "symlink", "realpath", "openw":
 		default:
 			err = obj(o.P)
